@@ -464,11 +464,21 @@ impl ProcfsHandle {
                     // If the lookup failed due to ENOENT, and the current
                     // procfs handle is "masked" in some way, try to create a
                     // temporary unmasked handle and retry the operation.
-                    Self::new_unmasked()
-                        // Use the old error if creating a new handle failed.
-                        .or(Err(err))?
-                        .open(base, subpath, oflags)
-                        .map(OwnedFd::from)
+                    //
+                    // The retry only makes sense on a handle that really is
+                    // unmasked. An unprivileged process on a hidepid= or
+                    // subset=pid host gets the very same masked /proc again,
+                    // and retrying on it would recurse (one new handle and
+                    // two descriptors per level) until the process runs out
+                    // of file descriptors.
+                    match Self::new_unmasked() {
+                        Ok(procfs) if !procfs.is_subset => {
+                            procfs.open(base, subpath, oflags).map(OwnedFd::from)
+                        }
+                        // Use the old error if creating a new handle failed
+                        // or did not get us an unmasked procfs.
+                        _ => Err(err),
+                    }
                 } else {
                     Err(err)
                 }
